@@ -60,7 +60,8 @@ CLAIMED = {
                   "fresh-process reference",
         text="Bounded exhaustive over call histories with injected faults: every explored transition of the (mode, parser objects, "
              "preference assignment) machine - parser construction in both parse modes, six parse entry points x faults "
-             "(none, empty, malformed, undecodable bytes, throwing fetcher, missing file), rejected DOM edit, media query edit, "
+             "(none, empty, malformed, undecodable bytes, throwing fetcher, missing file, input that leaves a pushed-back token), rejected DOM "
+             "edit, media query edit, a serialisation whose validator raises, a default-profile switch, a profile added / used / removed, "
              "serialise, csscombine, preference changes - followed by a probe battery. TLC checks after every call that error mode, "
              "preferences digest, profile verdict digest and serializer identity are as at call start, that the battery answers as "
              "in a fresh process and that a parser object is reusable.",
@@ -71,8 +72,10 @@ CLAIMED = {
         technique="TLA+ contract (NamespacesContract) + intended-semantics generator machine (Namespaces.tla, invariants checked by "
                   "TLC); TLC-generated tour and simulated walks replayed on CSSStyleSheet namespaces / @namespace rules / namespaced "
                   "selectors incl. @media-nested, detached and re-attached rules; TLC trace monitor",
-        text="Bounded exhaustive over namespace edit histories (3 prefixes incl. default, 2 URIs, 7 selector forms incl. undeclared "
-             "prefix; add/insert/delete @namespace, mapping set/delete, prefix assignment, selector rewrite, detach/attach). After "
+        text="Bounded exhaustive over namespace edit histories (3 prefixes incl. default, 2 URIs, 9 selector forms incl. undeclared "
+             "prefix and :not() arguments; add/insert/delete @namespace, mapping set/delete, prefix assignment, selector rewrite as text or as a "
+             "Selector object with a prefix of its own, a rejected assignment of the whole sheet text, detach/attach; starting from an empty sheet "
+             "or from one that already holds other rules). After "
              "every step TLC checks: mapping = effective rules, used URIs declared, unprefixed type selectors follow the default, "
              "serialisation reparses to the same mapping and re-resolves every explicit item to the same (URI, local) pair, "
              "denotation of every untouched selector item is stable, detached rules keep their text, undeclared prefix rejected, "
@@ -125,7 +128,8 @@ CLAIMED = {
                   "adapter serves each node encoded in the encoding the SPEC chooses with distinguishing probe characters; TLC "
                   "trace monitor",
         text="Exhaustive over the row product for depth-1 chains (override x transport charset x BOM/@charset/neither x parent known "
-             "x bytes/text x fetcher None/(None,None)/data, four mutually distinguishable encodings), reduced product for depth 2 "
+             "x bytes/text x fetcher None/(None,None)/data, four mutually distinguishable encodings; UTF-8 and UTF-16 signatures, a signature "
+             "under a disagreeing transport charset, '@CHARSET' that is no rule), reduced product for depth 2 "
              "(3 in the thorough tier), 1536 histories 'parse, change the encoding of root or imported sheet, add a new @import as "
              "text / object / whole-text assignment', and 180 escape cases (6 target encodings x 6 character strings x 5 syntactic "
              "positions). TLC checks reported encodings, probe text, loaded/unavailable imports, @charset mirror, decodability, "
@@ -139,7 +143,8 @@ CLAIMED = {
                   "(SelList.tla); TLC trace monitors",
         text="Bounded exhaustive: every selector with <=3 parts/2 compounds (quick) or <=4 parts/3 compounds (thorough) over "
              "type/universal, id, class, 7 attribute operators, pseudo-class, functional pseudo-class with an+b / ident argument, "
-             "pseudo-elements in one- and two-colon form, :not() with 6 argument kinds and 4 combinators, each in 5 spellings; TLC "
+             "pseudo-elements in one- and two-colon form and as a function, :not() with 6 argument kinds and 4 combinators, each in 6 spellings "
+             "(incl. the empty string as attribute value); selector lists under append, text and item assignment from either end; TLC "
              "checks specificity = expected before/after round trip and when attached to a sheet, reparse = first parse, parsed "
              "structure = source; list histories (append/selectorText, raise and log mode): order, whole-list rejection, move-to-end.",
         design_ref="DESIGN.md section 5 C16",
